@@ -290,18 +290,18 @@ Section Fin2.
   Qed.
 
   (* ---------------- tests, finished ---------------- *)
-  Lemma chk_test_fin : forall u t c st,
+  Lemma chk_test_fin : forall u pos t c st,
     Open u c st -> ss_teardown st = RNone -> rstate_eqb (ss_setup st) ROpen = false ->
     lookup path_eqb (u ++ [m_name (t_meta t)]) (c_tests c) = None -> test_ok t = true -> test_ended t = true ->
     QSt c -> QT c ->
-    exists es c', replay_test replay_step now th u t = (es, None) /\ check_all m c es = Some c' /\
+    exists es c', replay_test replay_step now th u pos t = (es, None) /\ check_all m c es = Some c' /\
       Open u c' st /\ c_suites c' = c_suites c /\ c_setup c' = c_setup c /\ QSt c' /\ QT c' /\
       exists dt, c_tests c' = dt ++ c_tests c /\ Forall (fun kv => fst kv = u ++ [m_name (t_meta t)]) dt.
   Proof.
-    intros u t c st Hopen Htd Hsu Hfresh Hok Hended Q QTc.
+    intros u pos t c st Hopen Htd Hsu Hfresh Hok Hended Q QTc.
     destruct t as [tm r]. cbn [t_meta t_result] in *.
     pose proof Hopen as (Hp & _).
-    set (nd := mkNode u tm 0). set (p := u ++ [m_name tm]).
+    set (nd := mkNode u tm (test_key 0 pos)). set (p := u ++ [m_name tm]).
     assert (Hnew : forall x, new_test m c nd x = Some (put_test c p x)).
     { intro. unfold new_test. cbn [n_parent nd]. rewrite (open_suite_Open _ _ _ Hopen). rewrite Htd, Hsu.
       unfold node_path. cbn [n_parent n_meta nd]. rewrite Hfresh. reflexivity. }
@@ -365,30 +365,30 @@ Section Fin2.
       + exists [(p, TEnded); (p, TStarted)]. split; auto.
   Qed.
 
-  Lemma chk_tests_fin : forall u st tests c,
+  Lemma chk_tests_fin : forall u st tests c pos,
     Open u c st -> ss_teardown st = RNone -> rstate_eqb (ss_setup st) ROpen = false ->
     (forall t, In t tests -> lookup path_eqb (u ++ [m_name (t_meta t)]) (c_tests c) = None) ->
     distinct (map (fun t => m_name (t_meta t)) tests) = true -> forallb test_ok tests = true ->
     forallb test_ended tests = true -> QSt c -> QT c ->
-    exists es c', seq_all (replay_test replay_step now th u) tests = (es, None) /\ check_all m c es = Some c' /\
+    exists es c', seq_all_from (replay_test replay_step now th u) pos tests = (es, None) /\ check_all m c es = Some c' /\
       Open u c' st /\ c_suites c' = c_suites c /\ c_setup c' = c_setup c /\ QSt c' /\ QT c' /\
       exists dt, c_tests c' = dt ++ c_tests c /\ Forall (fun kv => exists x, fst kv = u ++ [x]) dt.
   Proof.
-    intros u st. induction tests as [|t tests IH]; intros c Hopen Htd Hsu Hfresh Hd Hok Hended Q QTc.
+    intros u st. induction tests as [|t tests IH]; intros c pos Hopen Htd Hsu Hfresh Hd Hok Hended Q QTc.
     - exists [], c. split; [reflexivity|]. split; [reflexivity|]. split; [exact Hopen|]. split; [reflexivity|].
       split; [reflexivity|]. split; [exact Q|]. split; [exact QTc|]. exists []. split; [reflexivity|constructor].
     - simpl in Hd, Hok, Hended. apply andb_true_iff in Hd. destruct Hd as [Hd1 Hd2].
       apply andb_true_iff in Hok. destruct Hok as [Hok1 Hok2]. apply negb_true_iff in Hd1.
       apply andb_true_iff in Hended. destruct Hended as [He1 He2].
-      destruct (chk_test_fin u t c st Hopen Htd Hsu (Hfresh t (or_introl eq_refl)) Hok1 He1 Q QTc)
+      destruct (chk_test_fin u pos t c st Hopen Htd Hsu (Hfresh t (or_introl eq_refl)) Hok1 He1 Q QTc)
         as [es1 [c1 [R1 [E1 [O1 [S1 [U1 [Q1 [QT1 [dt1 [T1 F1]]]]]]]]]]].
-      destruct (IH c1 O1 Htd Hsu) as [es2 [c2 [R2 [E2 [O2 [S2 [U2 [Q2 [QT2 [dt2 [T2 F2]]]]]]]]]]]; auto.
+      destruct (IH c1 (Z.succ pos) O1 Htd Hsu) as [es2 [c2 [R2 [E2 [O2 [S2 [U2 [Q2 [QT2 [dt2 [T2 F2]]]]]]]]]]]; auto.
       { intros t' Ht'. rewrite T1. rewrite lookup_app_none; [apply Hfresh; right; assumption|].
         eapply Forall_impl; [|exact F1]. intros [k v] Hkv. simpl in Hkv. simpl. subst k.
         apply path_eqb_child.
         apply (existsb_false_in _ _ _ (m_name (t_meta t')) Hd1). apply in_map_iff. eauto. }
       exists (es1 ++ es2), c2. split; [|split; [|split; [exact O2|split; [congruence|split; [congruence|split; [exact Q2|split; [exact QT2|]]]]]]].
-      + cbn [seq_all]. rewrite R1, R2. reflexivity.
+      + cbn [seq_all_from]. rewrite R1, R2. reflexivity.
       + rewrite check_all_app. rewrite E1. exact E2.
       + exists (dt2 ++ dt1). split; [rewrite T2, T1, app_assoc; reflexivity|].
         apply Forall_app. split; auto. eapply Forall_impl; [|exact F1]. intros kv Hkv. exists (m_name (t_meta t)). exact Hkv.
@@ -524,7 +524,7 @@ Section Fin3.
     assert (QT2 : QT c2) by (unfold QT; rewrite T2; exact QTc).
     assert (QS2 : QS u c2) by (apply (QS_self_bindings u c1 c2 Hu QS1); split; [exact T2|exists ds2; auto]).
     (* 3. tests *)
-    destruct (chk_tests_fin now th u (mkS false xs RNone) tests c2 O2 eq_refl Hxs)
+    destruct (chk_tests_fin now th u (mkS false xs RNone) tests c2 0%Z O2 eq_refl Hxs)
       as [es3 [c3 [R3 [E3 [O3 [S3 [U3 [Q3 [QT3 [dt3 [T3 G3]]]]]]]]]]]; auto.
     { intros t Ht. rewrite T2. cbn [c1 put_suite c_tests]. apply lookup_none_forall.
       eapply Forall_impl; [|exact HFT]. intros kv Hk. cbv beta in *.
